@@ -249,7 +249,7 @@ def check_rec(ctx):
 def check_record_fields(ctx):
     """every accounting, extent-length and layout computation reads Record.value_len / key / timestamp: each constructor
     literal must set value_len to the length of the value it stores (a deferred generation: its predecessor's), start unpublished
-    state at (sector 0, refcount 1, not retired) and take timestamp / expiry from its parameters"""
+    state at (sector 0, refcount 1, not retired); the timestamp's source is C12.source's business"""
     inst = "C13.fields"
     n_lit = 0
     for b in ctx.prog.product_bodies():
@@ -282,8 +282,6 @@ def check_record_fields(ctx):
             ss = f.get("successor_safe")
             c = [x for x in (ss.walk() if ss is not None else []) if x.k == "const"]
             ctx.check(bool(c) and (c[0].extra or {}).get("val") in (0, False), inst, "PIN", b.path, "and with the retirement memo unset", b.where(n.id), nontrivial=False)
-            ts = f.get("timestamp")
-            ctx.check(ts is not None and ts.k == "arg", inst, "PIN", b.path, "the timestamp is the constructor's parameter", b.where(n.id))
     ctx.check(n_lit == 3, inst, "anchor", "-", "Record literals in record.rs (expected 3, found %d)" % n_lit, None)
 
 
